@@ -474,6 +474,7 @@ struct Instance {
     unix: Tr,
     tcp: Option<Tr>,
     admin: String,
+    testbed: bool,
     exit: Option<tokio::sync::oneshot::Sender<()>>,
     join: Option<std::thread::JoinHandle<()>>,
     _scratch: Scratch,
@@ -538,6 +539,10 @@ impl Instance {
                 roles.add(r.name.clone(), role);
             }
             config.auth_roles = Arc::new(roles);
+            if std::env::var("KHTTP_LOG").is_ok() {
+                config.log_level = log::LevelFilter::Info;
+                let _ = config.init_logging();
+            }
             let (rtx, rrx) = tokio::sync::oneshot::channel();
             let (etx, erx) = tokio::sync::oneshot::channel();
             let jh = std::thread::spawn(move || {
@@ -554,6 +559,7 @@ impl Instance {
                 unix: Tr::Unix(sock.clone()),
                 tcp: if tcp { Some(Tr::Tcp(port)) } else { None },
                 admin: cfg.admin.clone(),
+                testbed: cfg.testbed,
                 exit: Some(etx),
                 join: Some(jh),
                 _scratch: scratch,
@@ -608,6 +614,104 @@ impl Instance {
         }
         if have.iter().any(|h| h == "tmpca") {
             self.admin_req("DELETE", "/api/v1/cas/tmpca", None);
+        }
+    }
+
+    /// The CAs for which the admin sees issues in the bulk listing.
+    fn issue_list(&self) -> Vec<String> {
+        let (st, body) = self.admin_req("GET", "/api/v1/bulk/cas/issues", None);
+        if st != 200 {
+            return Vec::new();
+        }
+        let v: serde_json::Value = serde_json::from_slice(&body).unwrap_or_default();
+        let mut l: Vec<String> = v["cas"].as_object().map(|o| o.keys().cloned().collect()).unwrap_or_default();
+        l.sort();
+        l
+    }
+
+    /// Gives each of the CAs an issue, so that listings of issues have content: the CA becomes a
+    /// publisher of the testbed repository and a child of the testbed CA (a CA without repository does
+    /// not talk to its parents), then the child is removed on the parent's side only; the next parent
+    /// synchronisation is refused and reported as a parent issue of the CA.
+    fn ensure_issues(&self, cas: &[&str]) {
+        if !self.testbed {
+            return;
+        }
+        let debug = std::env::var("KHTTP_BODY").is_ok();
+        let have = self.issue_list();
+        let mut waiting: Vec<&str> = Vec::new();
+        for ca in cas {
+            if have.iter().any(|h| h == ca) {
+                continue;
+            }
+            // repository
+            let (st, req) = self.admin_req("GET", &format!("/api/v1/cas/{ca}/id/publisher_request.json"), None);
+            if st != 200 {
+                continue;
+            }
+            http(&self.unix, "DELETE", &format!("/testbed/publishers/{ca}"), None, None);
+            let (st, body) = http(&self.unix, "POST", "/testbed/publishers", None, Some(&req));
+            if st != 200 {
+                eprintln!("testbed publisher {ca}: {st} {}", String::from_utf8_lossy(&body));
+                continue;
+            }
+            let (st, xml) = http(&self.unix, "GET", &format!("/testbed/publishers/{ca}/response.xml"), None, None);
+            if st != 200 {
+                continue;
+            }
+            let (st, body) = self.admin_req("POST", &format!("/api/v1/cas/{ca}/repo"), Some(&xml));
+            if st != 200 {
+                eprintln!("configure repository for {ca}: {st} {}", String::from_utf8_lossy(&body));
+                continue;
+            }
+            // parent
+            let (st, body) = self.admin_req("GET", &format!("/api/v1/cas/{ca}/id/child_request.json"), None);
+            if st != 200 {
+                continue;
+            }
+            let v: serde_json::Value = serde_json::from_slice(&body).unwrap_or_default();
+            let idc = v["id_cert"].as_str().unwrap_or("").to_string();
+            http(&self.unix, "DELETE", &format!("/testbed/children/{ca}"), None, None);
+            let n = 1 + cas.iter().position(|c| c == ca).unwrap_or(0);
+            let req = serde_json::json!({"handle": ca, "resources": {"asn": format!("AS{}", 64500 + n), "ipv4": format!("10.{n}.0.0/16"), "ipv6": ""}, "id_cert": idc});
+            let (st, body) = http(&self.unix, "POST", "/testbed/children", None, Some(req.to_string().as_bytes()));
+            if st != 200 {
+                eprintln!("testbed child {ca}: {st} {}", String::from_utf8_lossy(&body));
+                continue;
+            }
+            let (st, xml) = http(&self.unix, "GET", &format!("/testbed/children/{ca}/parent_response.xml"), None, None);
+            if st != 200 {
+                continue;
+            }
+            let (st, body) = self.admin_req("POST", &format!("/api/v1/cas/{ca}/parents"), Some(&xml));
+            if st != 200 {
+                eprintln!("add parent for {ca}: {st} {}", String::from_utf8_lossy(&body));
+                continue;
+            }
+            http(&self.unix, "DELETE", &format!("/testbed/children/{ca}"), None, None);
+            waiting.push(ca);
+        }
+        if waiting.is_empty() {
+            return;
+        }
+        let t0 = Instant::now();
+        let mut round = 0;
+        while !waiting.is_empty() && t0.elapsed() < Duration::from_secs(20) {
+            if round % 20 == 0 {
+                for ca in &waiting {
+                    self.admin_req("POST", &format!("/api/v1/cas/{ca}/sync/parents"), Some(b""));
+                }
+            }
+            round += 1;
+            std::thread::sleep(Duration::from_millis(50));
+            let have = self.issue_list();
+            waiting.retain(|c| !have.iter().any(|h| h == c));
+        }
+        if debug {
+            eprintln!("issue setup: issues visible after {:?}; still waiting for {waiting:?}", t0.elapsed());
+        }
+        if !waiting.is_empty() {
+            eprintln!("no issue appeared for {waiting:?} (listing of issues stays empty for them)");
         }
     }
 
@@ -990,7 +1094,8 @@ impl<'a> Runner<'a> {
         };
         let body = body_for(&row);
         let is_login = row.pattern == "/auth/login" && row.method == "POST";
-        let want_list = row.has_filter && row.pattern == "/api/v1/cas" && row.method == "GET";
+        let want_list = row.has_filter && row.method == "GET" && (row.pattern == "/api/v1/cas" || row.pattern == "/api/v1/bulk/cas/issues");
+        let issues_row = row.pattern == "/api/v1/bulk/cas/issues";
         let want_actor = row.handler == "cas::id_index" && row.method == "POST";
         let authd = kv(w, "auth").unwrap_or("none");
         let seg_list: Vec<&str> = if segs == "-" { Vec::new() } else { segs.split('/').collect() };
@@ -1007,8 +1112,11 @@ impl<'a> Runner<'a> {
                 self.digest = Some(self.inst.digest());
             }
         }
-        let all = if want_list { Some(self.inst.ca_list()) } else { None };
+        let all = if want_list { Some(if issues_row { self.inst.issue_list() } else { self.inst.ca_list() }) } else { None };
         let (status, rbody) = http(&tr, method, &path, auth.as_deref(), body.as_deref());
+        if std::env::var("KHTTP_BODY").is_ok() {
+            eprintln!("{method} {path} -> {status} {}", String::from_utf8_lossy(&rbody).chars().take(1500).collect::<String>());
+        }
         let mut line = op.clone();
         if let Some(all) = &all {
             line.push_str(&format!(" all={}", if all.is_empty() { "-".into() } else { all.join(",") }));
@@ -1027,10 +1135,14 @@ impl<'a> Runner<'a> {
         }
         if want_list && status == 200 {
             if let Ok(v) = serde_json::from_slice::<serde_json::Value>(&rbody) {
-                let mut l: Vec<String> = v["cas"]
-                    .as_array()
-                    .map(|a| a.iter().map(|c| c["handle"].as_str().unwrap_or("?").to_string()).collect())
-                    .unwrap_or_default();
+                let mut l: Vec<String> = if issues_row {
+                    v["cas"].as_object().map(|o| o.keys().cloned().collect()).unwrap_or_default()
+                } else {
+                    v["cas"]
+                        .as_array()
+                        .map(|a| a.iter().map(|c| c["handle"].as_str().unwrap_or("?").to_string()).collect())
+                        .unwrap_or_default()
+                };
                 l.sort();
                 line.push_str(&format!(" list={}", if l.is_empty() { "-".into() } else { l.join(",") }));
             }
@@ -1060,6 +1172,7 @@ impl<'a> Runner<'a> {
                 if row.method == "DELETE" && row.handler == "cas::ca_index" {
                     self.flush_pending(false);
                     self.inst.ensure_cas(&CAS);
+                    self.inst.ensure_issues(&CAS);
                     self.digest = None;
                 }
             }
@@ -1077,6 +1190,7 @@ impl<'a> Runner<'a> {
 
 fn run_case(inst: &Instance, rows: &[Row], cfg: &CaseCfg, ops: &[String], peer: &str, check_effects: bool) -> Vec<String> {
     inst.ensure_cas(&CAS);
+    inst.ensure_issues(&CAS);
     let mut r = Runner {
         inst,
         rows,
@@ -1241,6 +1355,9 @@ fn gen_plans(seed: u64, tier: &str, rows: &[Row], peer: &str) -> (Vec<(CaseCfg, 
         any: set(&["CaRead", "CaUpdate", "RoutesRead"]),
         res: vec![("ca1".into(), Vec::new()), ("ca2".into(), set(&["CaRead", "CaDelete", "CaAdmin", "AspasRead"]))],
     });
+    // the configuration file form `{ permissions, cas }`: general grant, but only one CA
+    let scoped = set(&["Login", "CaRead", "CaUpdate", "RoutesRead", "PubList"]);
+    roles.push(RoleDef { name: "scoped".into(), none: scoped.clone(), any: Vec::new(), res: vec![("ca2".into(), scoped)] });
     roles.push(RoleDef { name: "nologin".into(), none: set(&["CaRead", "CaCreate"]), any: perms.clone(), res: Vec::new() });
     let users: Vec<UserDef> = roles.iter().enumerate().map(|(i, r)| user_for(&r.name, 100 + i as u64)).collect();
 
